@@ -81,6 +81,30 @@ fn run_scenario(out: &mut Out, scn: &Value) {
     }
 }
 
+fn run_batch(out: &mut Out, subs: &[Value]) {
+    use routee_compass::plugin::input::input_plugin_ops::json_array_op;
+    let mut arr = Value::Array(subs.iter().map(query_of).collect());
+    let r = json_array_op(&mut arr, std::rc::Rc::new(|q: &mut Value| GridSearchPlugin {}.process(q)));
+    let items: Vec<Value> = match (&r, &arr) {
+        (Ok(()), Value::Array(a)) => a.clone(),
+        _ => vec![],
+    };
+    for s in subs {
+        out.scenario(s);
+        let axes = if s["nogrid"].as_bool().unwrap_or(false) { json!([]) } else { s["axes"].clone() };
+        out.event(json!({"ev": "Start", "base": s["base"], "axes": axes, "mode": "plugin"}));
+        if r.is_err() {
+            out.event(json!({"ev": "Error", "msg": "json_array_op failed"}));
+            continue;
+        }
+        let mine: Vec<&Value> = items.iter().filter(|it| it.get("zz") == s["base"].get("zz")).collect();
+        for it in &mine {
+            out.event(json!({"ev": "Emit", "mode": "plugin", "q": it, "combo": []}));
+        }
+        out.event(json!({"ev": "End", "n": mine.len()}));
+    }
+}
+
 fn gen(r: &mut rand::rngs::StdRng) -> Value {
     let keys = ["a", "b", "c", "d", "e", "f", "g"];
     let nbase = r.gen_range(0..=4);
@@ -140,6 +164,22 @@ pub fn main(args: &[String]) -> i32 {
         for _ in 0..n {
             let s = gen(&mut r);
             guarded(&mut out, |o| run_scenario(o, &s));
+        }
+        // mixed batches through the array helper (json_array_op + flattening): 2..5 queries, with and without a grid
+        // section, in one top-level array.  Every query carries a distinct marker field, so the flattened result can be
+        // split back per query; each part must be that query's expansion (a query without a grid section: itself).
+        let mut r2 = rng(18);
+        for _ in 0..(n / 4) {
+            let subs: Vec<Value> = (0..r2.gen_range(2..=5))
+                .map(|i| {
+                    let mut s = gen(&mut r2);
+                    s["mode"] = json!("plugin");
+                    s["nogrid"] = json!(r2.gen_bool(0.4));
+                    s["base"]["zz"] = json!(1000 + i);
+                    s
+                })
+                .collect();
+            guarded(&mut out, |o| run_batch(o, &subs));
         }
     }
     out.flush();
